@@ -195,6 +195,19 @@ def twin_assemblies(run, by):
             r["modules"].append(dict(r["modules"][0], id="dup"))
         r["twin"] = {"by": by, "args": twin_args(r, by, rng)}
         recipes.append(r)
+    if by == "case":      # two modules with reverse-complementary start overhangs are refused in every spelling
+        for espec, G in tc.geometries():
+            if rng.random() < (0.6 if q else 0.0):
+                continue
+            c = G.case(rng, 2 if G.capacity() >= 3 else 1)
+            if not c:
+                continue
+            ov2 = G.overhangs(1, rng)
+            extra = G.module(dna.rc(c["overhangs"][0]), gen.rnd(4, rng, G.safe), ov2[0], gen.rnd(3, rng, G.safe), rng)
+            if extra and dna.rc(c["overhangs"][0]) != c["overhangs"][0]:
+                mods = [{"id": "m%d" % (i + 1), "seq": m} for i, m in enumerate(c["modules"])] + [{"id": "rcstart", "seq": extra}]
+                recipes.append({"fn": "assemble", "enz": espec, "vector": {"id": "vec", "seq": c["vector"]}, "modules": mods, "id": "p", "name": "p",
+                                "twin": {"by": "case", "args": [rng.choice(["1", "01", "0"])] + ["1"] * len(mods)}})
     if by == "case":      # a vector whose two overhangs coincide must be refused in every spelling
         for espec, G in tc.geometries():
             if rng.random() < (0.7 if q else 0.0):
